@@ -371,7 +371,11 @@ def ite_case(rnd, cid, p=BN128):
     else:
         rc = b.operand(kc, malformed, value=None if malformed else rnd.choice([0, 1]))
     shape = rnd.random()
-    if shape < 0.7:
+    if shape < 0.12:
+        # a selection between two booleans is a boolean (`LinCombBool(ret, False)`): the pair has its own share of the cases
+        kt = kf = "B"
+        rt = b.operand("B"); rf = rt if rnd.random() < 0.05 else b.operand("B")
+    elif shape < 0.7:
         kt = rnd.choice("LLIXBF"); kf = rnd.choice("LLIXBF")
         rt = b.operand(kt); rf = rt if rnd.random() < 0.05 else b.operand(kf)
     else:
@@ -382,6 +386,15 @@ def ite_case(rnd, cid, p=BN128):
         rf = b.emit("list " + " ".join(f"r{t}" for t in fs), "list")
         kt = kf = "list"
     rr = b.emit(f"ite r{rc} r{rt} r{rf}", "?")
+    if kt == kf == "B" and rnd.random() < 0.6:
+        # the result is used AS a boolean: logical NOT, `&` with a boolean, the condition of a second selection
+        c = rnd.random()
+        if c < 0.35:
+            b.emit(f"un invert r{rr}", "B")
+        elif c < 0.65:
+            o = b.operand("B"); b.emit(f"bin {rnd.choice(['and', 'or', 'xor'])} r{rr} r{o}", "B")
+        else:
+            t2 = b.operand("L"); f2 = b.operand("L"); b.emit(f"ite r{rr} r{t2} r{f2}", "?")
     if kt != "list":
         follow_ups(rnd, b, rr)
     return Case(cid, cfg, b.ins, {"shape": "ite", "op": "ite", "kinds": kc + ":" + kt + kf, "malformed": malformed})
